@@ -293,6 +293,10 @@ fn gen_type(rng: &mut Rng, cx: &mut Ctx, depth: u32, in_property: bool) -> Value
             3 if cx.sw.nullable => json!({"oneOf": [r(&t), {"type": "null"}]}),
             4 => json!({"type": "array", "items": r(&t)}),
             5 if cx.sw.maps => json!({"type": "object", "additionalProperties": r(&t)}),
+            6 if cx.sw.tuples && rng.chance(1, 4) => {
+                // the same definition in two slots of one tuple
+                json!({"type": "array", "items": [r(&t), r(&t)], "minItems": 2, "maxItems": 2})
+            }
             6 if cx.sw.tuples => {
                 let other = gen_scalar(rng, cx.sw);
                 if rng.chance(1, 2) {
@@ -509,6 +513,14 @@ fn gen_tagged_enum(rng: &mut Rng, cx: &mut Ctx) -> Value {
                 variants.push(json!({"type": "array", "items": r(&t)}));
             } else {
                 variants.push(json!({"type": "boolean"}));
+            }
+            if !cx.targets.is_empty() && cx.sw.cycles == 0 && rng.chance(1, 2) {
+                // what schemars emits for `#[serde(untagged)] enum { A(TypeA), Other(i64) }`:
+                // an alternative that is a bare reference to another definition
+                let t = rng.pick(&cx.targets).clone();
+                variants.retain(|v| v.get("type") != Some(&json!("boolean")) && v.get("type") != Some(&json!("array")));
+                variants.push(r(&t));
+                return json!({ "anyOf": variants });
             }
         }
     }
@@ -773,7 +785,7 @@ fn gen_invalid_instance_inner(rng: &mut Rng, schema: &Value, defs: &Defs) -> Opt
         Value::Number(_) => vec![json!("7"), json!(true), json!(-1), json!(70000), json!(300), json!(null)],
         Value::String(_) => vec![json!(5), json!(false), json!("a-value-that-is-much-too-long-for-it"), json!("nonmember"), json!(null)],
         Value::Array(a) => {
-            let mut v = vec![json!("nope"), json!({}), json!(null)];
+            let mut v = vec![json!("nope"), json!({}), json!(null), json!([])];
             let mut longer = a.clone();
             longer.push(json!(null));
             v.push(Value::Array(longer));
@@ -1066,7 +1078,11 @@ fn gen_settings(rng: &mut Rng, sw: &Swarm, comps: &[Component]) -> SettingsDesc 
         for _ in 0..rng.range(1, 2) {
             let (schema, ty) = rng.pick(pool).clone();
             if !s.conversions.iter().any(|c| c.schema == schema) {
-                s.conversions.push(ConversionDesc { schema, type_name: ty.to_string() });
+                s.conversions.push(ConversionDesc { schema: schema.clone(), type_name: ty.to_string() });
+                if rng.chance(1, 2) {
+                    // the same schema again with another type: the first one is honoured
+                    s.conversions.push(ConversionDesc { schema, type_name: "::std::boxed::Box<str>".to_string() });
+                }
             }
         }
     }
@@ -1214,9 +1230,34 @@ fn gen_addtype(rng: &mut Rng, sw: &Swarm, added: &[String], defs_model: &Defs, h
     op
 }
 
+thread_local! {
+    /// titled schemas delivered through add_type_with_name so far in the run being generated
+    static TITLED_POOL: std::cell::RefCell<Vec<Value>> = const { std::cell::RefCell::new(Vec::new()) };
+}
+
 fn gen_addtype_plain(rng: &mut Rng, sw: &Swarm, added: &[String], hints_used: &mut Vec<String>, counter: &mut usize) -> Op {
     *counter += 1;
     let n = *counter;
+    if sw.inline && sw.defaults == 0 && rng.chance(1, 8) {
+        // a schema that carries its own title (the title names the type, whatever
+        // the hint says) with a child that needs a generated name; later delivered
+        // again under another hint or none
+        let pooled: Vec<Value> = TITLED_POOL.with(|p| p.borrow().clone());
+        if !pooled.is_empty() && rng.chance(1, 2) {
+            let schema = rng.pick(&pooled).clone();
+            let hint = if rng.chance(1, 3) { None } else { Some(format!("Other{n}")) };
+            return Op::AddType { schema, hint, poison: None };
+        }
+        let mut cx = Ctx { sw, targets: added.to_vec(), ref_weight: 2, titles: 100 * n, prefix: format!("Q{n}") };
+        let mut o = gen_object(rng, &mut cx, 2, 1, 2);
+        o["properties"]["size"] = json!({"type": "string", "enum": ["small", "large"]});
+        if rng.chance(1, 2) {
+            o["properties"]["box"] = json!({"type": "object", "properties": {"w": {"type": "integer"}}, "required": ["w"]});
+        }
+        o["title"] = json!(format!("Q{n}Titled"));
+        TITLED_POOL.with(|p| p.borrow_mut().push(o.clone()));
+        return Op::AddType { schema: o, hint: Some(format!("Hint{n}")), poison: None };
+    }
     let mut cx = Ctx {
         sw,
         targets: added.to_vec(),
@@ -1442,6 +1483,7 @@ pub fn make_variant(rng: &mut Rng, relation: &str, base: &[Op]) -> Vec<Op> {
 
 /// Expand a seed into a full run description.
 pub fn generate(seed: u64, focus: Focus, faults: bool) -> RunDesc {
+    TITLED_POOL.with(|p| p.borrow_mut().clear());
     match focus {
         Focus::Fixtures => return generate_fixture_run(seed, false, faults),
         Focus::FixturesBig => return generate_fixture_run(seed, true, faults),
